@@ -285,8 +285,12 @@ async fn cell<K: Kind>(addr: SocketAddr, set: Arc<CertSet>, topic: String, comp:
             publisher.finish().await.map_err(|e| fail("finish-error", &class, format!("publisher.finish failed: {e}")))?;
         }
         _ => {
-            for it in &to_send {
+            for (i, it) in to_send.iter().enumerate() {
                 publisher.send(it.clone()).await.map_err(|e| fail("send-error", &class, format!("publisher.send failed: {e}")))?;
+                // "pause": the stream goes quiet for longer than any idle time-out (12 s), twice
+                if mode == "pause" && i + 1 < to_send.len() {
+                    tokio::time::sleep(Duration::from_secs(if i == 0 { 12 } else { 3 })).await;
+                }
             }
             publisher.finish().await.map_err(|e| fail("finish-error", &class, format!("publisher.finish failed: {e}")))?;
         }
@@ -351,13 +355,14 @@ fn cells(tier: &str) -> Vec<Value> {
     let mut v = Vec::new();
     let mut id = 0usize;
     let mut push = |codec: &str, comp: &str, batching: Option<(u32, u64)>, n: usize, size: usize, v: &mut Vec<Value>| {
-        v.push(json!({"cell": id, "codec": codec, "compression": comp, "batch_size": batching.map(|b| b.0), "batch_interval_ms": batching.map(|b| b.1), "messages": n, "payload_bytes": size & 0xff_ffff, "mode": (["send", "bulk", "duplicate", "drop-after-finish", "refused-item"][size >> 24])}));
+        v.push(json!({"cell": id, "codec": codec, "compression": comp, "batch_size": batching.map(|b| b.0), "batch_interval_ms": batching.map(|b| b.1), "messages": n, "payload_bytes": size & 0xff_ffff, "mode": (["send", "bulk", "duplicate", "drop-after-finish", "refused-item", "pause"][size >> 24])}));
         id += 1;
     };
     const BULK: usize = 1 << 24;
     const DUP: usize = 2 << 24;
     const DROP: usize = 3 << 24;
     const REFUSED: usize = 4 << 24;
+    const PAUSE: usize = 5 << 24;
     let hour = 3_600_000u64;
     let batchings: Vec<Option<(u32, u64)>> = vec![None, Some((1, hour)), Some((2, hour)), Some((3, hour)), Some((5, hour)), Some((1, 0)), Some((2, 0)), Some((3, 0)), Some((5, 0))];
     // bulk: 6 MB pushed with send_all while the subscriber is idle for 1.5 s (transport back-pressure)
@@ -366,6 +371,12 @@ fn cells(tier: &str) -> Vec<Value> {
         let comps_b: Vec<&str> = if tier == "thorough" { vec!["none", "lz4"] } else { vec!["none"] };
         for comp in comps_b {
             push(codecs[k % 3], comp, *b, 3000, BULK | 2048, &mut v);
+        }
+    }
+    // nothing is sent for 12 s (longer than the transport's idle time-out) between two items
+    for (k, b) in [None, Some((2u32, hour)), Some((2, 0))].into_iter().enumerate() {
+        if tier == "thorough" || k == 0 {
+            push(codecs[k % 3], "none", b, 3, PAUSE | 24, &mut v);
         }
     }
     // the publisher's connection is dropped as soon as finish() has returned (4 MB in flight)
@@ -455,7 +466,7 @@ pub async fn run(tier: &str, replaying: bool) -> ! {
     let addr = net::start_server(&set).unwrap_or_else(|e| vcommon::report::machinery_failure(&format!("cannot start the server: {e}")));
     let cs = filter_cells(cells(tier));
     let salt = Arc::new(AtomicUsize::new(0));
-    let outs = run_matrix(cs, 48, |c| {
+    let outs = run_matrix_inline(cs, 48, |c| {
         let set = set.clone();
         let salt = salt.clone();
         async move {
@@ -479,7 +490,7 @@ pub async fn run(tier: &str, replaying: bool) -> ! {
     finish(
         rep,
         outs,
-        "every cell of codec {String, Bytes, Bincode struct} x compression {none, gzip, zlib, zstd, lz4, brotli} x batching {off; size 1,2,3,5 x interval 1h (never elapses) / 0 (always elapsed)} x message count 0..=2*size+1 x payload {0, 24 B, 100 KB, mixed (one 100 KB item between 24 B items)} in thorough; quick: every batching config x every message count with codec/compression rotating over all 18 pairs, plus mixed payload sizes under every batching config, plus every pair x {unbatched, size 2} x three payload sizes. Plus bulk cells (3000 items of 2 KiB pushed with send_all while the subscriber stays idle for 1.5 s, so the transport's back-pressure reaches the publisher; unbatched and batched) and duplicate cells (Publisher::duplicate() taken while 1..size items of a batch are pending; the duplicate sends two items and finishes before the original continues; every item of either exactly once, each publisher's in order). Plus drop-after-finish cells (500 items of 8 KiB through send_all on a connection of the publisher's own, which is dropped the moment finish() has returned) refused-item cells (unbatched: an item over the frame limit is refused between valid items, which must all arrive) oversized-batch cells (valid 300 KB items whose batch as a whole exceeds the frame limit) and large compressible batches (8 x 200 KiB of text: over 1 MiB before compression, within a frame after it). Each cell: real Subscriber (attached via a warm-up barrier), real Publisher sends n items then finish(); oracle: the subscriber yields exactly the sent items, equal, in order, once, nothing else. non-trivial = at least one message",
+        "every cell of codec {String, Bytes, Bincode struct} x compression {none, gzip, zlib, zstd, lz4, brotli} x batching {off; size 1,2,3,5 x interval 1h (never elapses) / 0 (always elapsed)} x message count 0..=2*size+1 x payload {0, 24 B, 100 KB, mixed (one 100 KB item between 24 B items)} in thorough; quick: every batching config x every message count with codec/compression rotating over all 18 pairs, plus mixed payload sizes under every batching config, plus every pair x {unbatched, size 2} x three payload sizes. Plus bulk cells (3000 items of 2 KiB pushed with send_all while the subscriber stays idle for 1.5 s, so the transport's back-pressure reaches the publisher; unbatched and batched) and duplicate cells (Publisher::duplicate() taken while 1..size items of a batch are pending; the duplicate sends two items and finishes before the original continues; every item of either exactly once, each publisher's in order). Plus pause cells (three items with 12 s and 3 s of silence between them: longer than the transport's idle time-out). Plus drop-after-finish cells (500 items of 8 KiB through send_all on a connection of the publisher's own, which is dropped the moment finish() has returned) refused-item cells (unbatched: an item over the frame limit is refused between valid items, which must all arrive) oversized-batch cells (valid 300 KB items whose batch as a whole exceeds the frame limit) and large compressible batches (8 x 200 KiB of text: over 1 MiB before compression, within a frame after it). Each cell: real Subscriber (attached via a warm-up barrier), real Publisher sends n items then finish(); oracle: the subscriber yields exactly the sent items, equal, in order, once, nothing else. non-trivial = at least one message",
         "each cell runs against one shared in-process server on a unique topic with its own client connection",
         json!({}),
         replaying,
